@@ -629,6 +629,49 @@ theorem built_closed (a : Attrs) (x y z : Rat) (sp : Option Rat) (segs : List Se
         exact hmem r ((Femto.C11.uf_sublist _).subset hr)
 
 
+/-- any builder that appends rows marked 0 / 1 to a chain keeps the chain invariant (every curved primitive appends its samples
+through `add_path` with the shutter value of the call) -/
+theorem append_chainOK (t : Traj) (rs : List (Row Rat)) (h : ChainOK t) (hr : ∀ r ∈ rs, r.s = 0 ∨ r.s = 1) : ChainOK (t ++ rs) := by
+  obtain ⟨⟨h0, rest, rfl, hs0⟩, hm⟩ := h
+  refine ⟨⟨h0, rest ++ rs, by simp, hs0⟩, ?_⟩
+  intro r hr'
+  rcases List.mem_append.mp hr' with h1 | h1
+  · exact hm r h1
+  · exact hr r h1
+
+/-- **`end()` closes whatever chain it is given**: for any trajectory that starts closed and carries marks 0 / 1 — however it
+was built — the reported matrix after `end()` is non-empty, starts closed, carries marks 0 / 1 and ends closed -/
+theorem finish_closed (a : Attrs) (t t' : Traj) (h : ChainOK t) (hf : finish a t = .ok t') :
+    let m := (points t').map toPt
+    m ≠ [] ∧ (∀ p ∈ m, p.s = 0 ∨ p.s = 1) ∧ (∃ p, m.head? = some p ∧ p.s = 0) ∧ (∃ p, m.getLast? = some p ∧ p.s = 0) := by
+  obtain ⟨⟨h0, rest, rfl, hs0⟩, hm⟩ := h
+  unfold finish at hf
+  cases hl : (h0 :: rest).getLast? with
+  | none => simp at hl
+  | some l =>
+    rw [hl] at hf
+    simp only [List.head?_cons] at hf
+    injection hf with hf
+    subst hf
+    intro m
+    have hmem : ∀ r ∈ h0 :: rest ++ [⟨l.x, l.y, l.z, l.f, 0⟩, (⟨h0.x, h0.y, h0.z, a.speedClosed, 0⟩ : Row Rat)], r.s = 0 ∨ r.s = 1 := by
+      intro r hr
+      rcases List.mem_append.mp hr with hr | hr
+      · exact hm r hr
+      · simp at hr; rcases hr with rfl | rfl <;> simp
+    have hhead : m.head? = some (toPt h0) := by
+      simp only [m, points, List.head?_map, uf_head?]; rfl
+    have hlast : m.getLast? = some (toPt ⟨h0.x, h0.y, h0.z, a.speedClosed, 0⟩) := by
+      simp only [m, points, List.getLast?_map, Femto.C11.uf_getLast?]
+      rw [List.getLast?_append]
+      rfl
+    refine ⟨?_, ?_, ⟨_, hhead, hs0⟩, ⟨_, hlast, rfl⟩⟩
+    · intro he; rw [he] at hhead; simp at hhead
+    · intro p hp
+      simp only [m, List.mem_map] at hp
+      obtain ⟨r, hr, rfl⟩ := hp
+      exact hmem r ((Femto.C11.uf_sublist _).subset hr)
+
 /-- the hypotheses of `group_scans_replayed` on the members of a group hold for every path the builders produce -/
 theorem built_group_hyps (a : Attrs) (x y z : Rat) (sp : Option Rat) (segs : List Seg) (t : Traj)
     (hb : build a x y z sp segs = .ok t) :
